@@ -215,6 +215,34 @@ pub fn c16(tier: Tier) -> i32 {
                 }
             }
         }
+        // the converter: an export producing every kind of warning several times (unmatched cancels, unknown actions,
+        // withholdings without dividend), so that an unsorted map traversal shows as differing warning order
+        let mut rows = vec![];
+        for (i, sym) in ["AAA", "BBB", "CCC", "DDD", "EEE", "FFF"].iter().enumerate() {
+            rows.push(json!({"Date": format!("01/{:02}/2024", 10 + i), "Action": "Cancel Sell", "Symbol": sym, "Description": "cxl", "Quantity": format!("{}", 3 + i), "Price": "$10", "Fees & Comm": "", "Amount": ""}));
+            rows.push(json!({"Date": format!("02/{:02}/2024", 10 + i), "Action": "NRA Withholding", "Symbol": sym, "Description": "nra", "Quantity": "", "Price": "", "Fees & Comm": "", "Amount": "-$1.50"}));
+            rows.push(json!({"Date": format!("03/{:02}/2024", 10 + i), "Action": format!("Mystery {i}"), "Symbol": sym, "Description": "?", "Quantity": "", "Price": "", "Fees & Comm": "", "Amount": ""}));
+            rows.push(json!({"Date": format!("04/{:02}/2024", 10 + i), "Action": "Buy", "Symbol": sym, "Description": "b", "Quantity": "10", "Price": "$5", "Fees & Comm": "$1", "Amount": ""}));
+        }
+        let export = json!({"BrokerageTransactions": rows}).to_string();
+        let sc = Scratch::new();
+        sc.write("tx.json", export.as_bytes());
+        let outs: Vec<(Vec<u8>, Vec<u8>, Option<i32>)> = (0..runs)
+            .into_par_iter()
+            .map(|_| {
+                let o = run_tool(&["convert", "schwab", "tx.json"], &sc, std::time::Duration::from_secs(30));
+                let strip = |b: &[u8]| String::from_utf8_lossy(b).lines().filter(|l| !l.starts_with("# Converted:")).collect::<Vec<_>>().join("\n").into_bytes();
+                (strip(&o.stdout), o.stderr.clone(), o.code)
+            })
+            .collect();
+        acc.states += runs as u64;
+        acc.validated += runs as u64;
+        acc.bump("cli:repeated-process-runs");
+        acc.bump("cli:repeated-convert-runs");
+        if outs.iter().any(|o| o != &outs[0]) || outs[0].2 != Some(0) || outs[0].1.is_empty() {
+            let distinct: std::collections::BTreeSet<&(Vec<u8>, Vec<u8>, Option<i32>)> = outs.iter().collect();
+            acc.violation(&ctx.findings, "C16", Violation { clause: "output-differs-between-processes".into(), input: Input::Json(serde_json::from_str(&export).unwrap_or(Value::Null)), detail: format!("`cgt-tool convert schwab` produced {} different (stdout, stderr) outputs in {runs} runs (exit {:?})", distinct.len(), outs[0].2), context: json!({"profile": "convert"}) });
+        }
     } else {
         machinery_failure("cgt-tool binary missing (run ./setup.sh)");
     }
